@@ -6,5 +6,6 @@ CONSTANTS Speeds = {0, 1, 9}
 INVARIANT SelectOK
 INVARIANT FromSetsOnly
 INVARIANT NoDowngrade
+INVARIANT UnsealedOnlyIfBoth
 INVARIANT ChoiceOrderFree
 CHECK_DEADLOCK FALSE
